@@ -224,6 +224,46 @@ def one(rec, hub, seed, tier, i, tmpdir):
                 rec.violation(M, f"entry-not-from-the-row-with-its-labels:{fsig}:am={int(am)},ae={int(ae)}", dict(w, first_bad_index=bad))
 
 
+def reader_reuse(rec, hub, seed, i, tmpdir):
+    """one reader object, one path: the file is rewritten between reads and every read must reflect the file as it is now"""
+    fd = hub.fd
+    rng = case_nprng(seed, "c12.reuse", 0, i)
+    spec, dims = F.make_dims(fd, rng, allow_untyped_int=False)
+    xlsx = i % 2 == 1
+    path = os.path.join(tmpdir, f"reuse{i}." + ("xlsx" if xlsx else "csv"))
+    reader = (fd.ExcelParameterReader(parameter_files={"par": path}, parameter_sheets={"par": "data"}) if xlsx else fd.CSVParameterReader(parameter_files={"par": path}))
+    info0 = None
+    for step in range(4):
+        values = F.make_values(rng, dims.shape)
+        recs = F.long_records(spec, values)
+        df, info = F.render(spec, recs, rng, layout="long", header="names", in_index="none", vname="value", omit_single=False)
+        df = df.reset_index(drop=True)
+        faulty = step in (1, 3) and rng.random() < 0.8
+        if faulty:
+            out, det = F.inject(df, spec, info, str(rng.choice(["drop_row", "dup_row", "blank_value", "unknown_item"])), rng, "random")
+            if out is None:
+                faulty = False
+            else:
+                df = out
+        if xlsx:
+            df.to_excel(path, index=False, sheet_name="data")
+        else:
+            df.to_csv(path, index=False)
+        rec.event(M, sig=f"reuse|{'xlsx' if xlsx else 'csv'}|step={step}|faulty={faulty}", cls=f"reader-reuse|{'xlsx' if xlsx else 'csv'}|{'faulty' if faulty else 'clean'}-after-rewrite")
+        try:
+            got = reader.read_parameter_values("par", dims)
+            exc = None
+        except Exception as e:
+            got, exc = None, e
+        w = {"route": "reader reuse", "xlsx": xlsx, "step": step, "file_is_faulty_now": faulty}
+        if faulty and exc is None:
+            rec.violation(M, "reused-reader-accepted-a-file-that-is-faulty-now", w)
+        elif not faulty and exc is not None:
+            rec.violation(M, "reused-reader-refused-a-file-that-is-fine-now", dict(w, exc=repr(exc)[:300]))
+        elif not faulty and not np.array_equal(got.values, values):
+            rec.violation(M, "reused-reader-returned-values-of-an-earlier-file-content", w)
+
+
 def run(rec, hub, tier, seed, shard, nshards, budget):
     rec.require(M, 100)
     rec.require(MT, 10)
@@ -236,6 +276,9 @@ def run(rec, hub, tier, seed, shard, nshards, budget):
             i = kk * nshards + shard
             rec.set_case(driver="c12.fault", seed=seed, tier=tier, shard=shard, nshards=nshards, idx=i)
             one(rec, hub, seed, tier, i, tmpdir)
+            if kk % 25 == 0:
+                rec.set_case(driver="c12.reuse", seed=seed, tier=tier, shard=shard, nshards=nshards, idx=i)
+                reader_reuse(rec, hub, seed, i, tmpdir)
     finally:
         shutil.rmtree(tmpdir, ignore_errors=True)
 
@@ -244,6 +287,9 @@ def replay(rec, hub, case):
     tmpdir = tempfile.mkdtemp(prefix="vmon-c12-")
     try:
         rec.set_case(**case)
-        one(rec, hub, case["seed"], case.get("tier", "quick"), case["idx"], tmpdir)
+        if case["driver"] == "c12.reuse":
+            reader_reuse(rec, hub, case["seed"], case["idx"], tmpdir)
+        else:
+            one(rec, hub, case["seed"], case.get("tier", "quick"), case["idx"], tmpdir)
     finally:
         shutil.rmtree(tmpdir, ignore_errors=True)
